@@ -162,6 +162,11 @@ class _BaseLayout(MaildirLayout[_MaildirT], metaclass=ABCMeta):
             if part in ('', '.', '..') or '\0' in part or os.sep in part \
                     or (os.altsep is not None and os.altsep in part):
                 raise FileNotFoundError(name)
+            try:
+                os.fsencode(part)
+            except UnicodeError as exc:
+                # e.g. a lone surrogate, there can be no such directory
+                raise FileNotFoundError(name) from exc
         return parts
 
     @classmethod
@@ -258,6 +263,16 @@ class DefaultLayout(_BaseLayout[_MaildirT]):
 
     def _get_path(self, parts: _Parts) -> str:
         return os.path.join(self._path, self._get_subdir(parts))
+
+    @classmethod
+    def _split(cls, name: str, delimiter: str) -> _Parts:
+        parts = super()._split(name, delimiter)
+        for part in parts:
+            # The parts are joined with '.' into the directory name, a '.'
+            # inside a part would turn it into several levels of hierarchy.
+            if '.' in part:
+                raise FileNotFoundError(name)
+        return parts
 
     @classmethod
     def _get_subdir(cls, parts: _Parts) -> str:
